@@ -161,6 +161,15 @@ def lookupRec (l : List (Nat × ScaledRec)) (o : Nat) : Option ScaledRec :=
   | [] => none
   | (k, r) :: t => if k = o then some r else lookupRec t o
 
+/-- code of an INTEGER parameter value: the value itself, or - when the setter writes `value / c` (side record
+with resolution `c` on an integer parameter, e.g. the heartbeat interval in 10 ms units) - the truncated quotient,
+as C++ unsigned division. (The code of a `double` parameter is `round(v / resolution)`, property C06.) -/
+def Pair.intCode (P : Pair) (o v : Nat) : Nat :=
+  if P.intBits.getD o 0 = 0 then v else
+  match lookupRec P.setScaled o with
+  | some r => if r.resExp = 0 ∧ r.resNum ≠ 0 then v / r.resNum else v
+  | none => v
+
 /-- per-field obligation: the parser reads field `o` from exactly the bits the setter wrote it to, and both
 sides use the same scaled side record (or both treat the field as an integer) -/
 def fieldOK (P : Pair) (o : Nat) : Bool :=
